@@ -3,12 +3,12 @@
 d=$1; shift
 cd /verif
 [ -z "$(git -C /repo status --porcelain)" ] || { echo "/repo dirty"; exit 2; }
-trap 'git -C /repo checkout -- . 2>/dev/null' EXIT
+trap '(git -C /repo checkout -- . && git -C /repo clean -fdq src tests) 2>/dev/null' EXIT
 git -C /repo apply "$d/patch.diff" || { echo "APPLY FAILED $d"; exit 2; }
 for id in "$@"; do
     out=$(timeout 1200 ./check "$id" quick 2>&1); rc=$?
     echo "== benign $(basename $d) vs $id: exit $rc"
     [ $rc -ne 0 ] && echo "$out" | grep -E "^violation|^VIOLATION|BUILD ERROR|HARNESS|error" | head -6
 done
-git -C /repo checkout -- .
+git -C /repo checkout -- . && git -C /repo clean -fdq src tests
 exit 0
